@@ -8,6 +8,13 @@ COMPONENTS_NET = {
              '__hash__ and a settable F_mass', 'scheduler / PRNG'],
 }
 
+COMPONENTS_STREAM = {
+    'real': ['thermosteam Stream / MultiStream / indexers / sparse arrays / ThermalCondition / Chemicals',
+             'thermosteam mixture and chemical property models (pass-through seam, S2)',
+             'flexsolve solvers (pass-through seam, S3)'],
+    'stub': ['unit operations (tasks issuing public-API calls)', 'scheduler / PRNG'],
+}
+
 PROPS = {
     'C18': {
         'engine': 'netsim',
@@ -33,4 +40,18 @@ PROPS = {
         'assumptions': ['cyclic/acyclic decided by an in-harness Tarjan SCC', 'seeded sampling'],
         'components': COMPONENTS_NET,
     },
+    **{p: {
+        'engine': 'streamsim',
+        'quick': {'runs': 1500, 'steps': (20, 50), 'deadline_s': 60, 'chunk': 25, 'seed': int(p[1:])},
+        'thorough': {'runs': 60000, 'steps': (20, 80), 'deadline_s': 600, 'chunk': 100, 'seed': 1000 + int(p[1:])},
+        'rule': ('one evaluation = one simulated history of public-API calls issued by stub unit operations on '
+                 '3-7 (+ derived) real streams over three property packages; distinct = distinct abstract '
+                 'universe states after a step (per stream: origin, single/multi, phase set, which phases hold '
+                 'material, property memo warm/cold, which cached views exist); non-trivial = history '
+                 'containing at least one operation of the property mechanism'),
+        'assumptions': ['oracle arithmetic is dense NumPy written in the harness; thermodynamic reference values '
+                        'come from Chemical / mixture model objects called directly (not through the stream)',
+                        'seeded sampling, not exhaustive'],
+        'components': COMPONENTS_STREAM,
+    } for p in ('C01', 'C10', 'C11', 'C14')},
 }
